@@ -4,8 +4,9 @@
    Same functions as Strtod/Model.lean, but every unsigned C intermediate is reduced modulo 2^width exactly where the C
    type system does it (`wrap`): `uint64_t carry / dividend / top53 / d1..d3`, `uint32_t` digits, `first_digit`,
    `quotient`, `remainder`, the `uint32_t factor / term / divisor` parameters, the `(uint32_t)` casts.  The widths are
-   REGENERATED from the declarations in the source (Gen/Strtod.lean: carryBits, dividendBits, top53Bits, digitBits,
-   quotBits, factorBits).  Strtod/WrapFree.lean proves that on every state the scanner can reach no reduction ever
+   REGENERATED from the declarations and casts in the source (Gen/Strtod.lean: carryBits, dividendBits, top53Bits,
+   digitBits, quotBits, factorBits; mulBits / divMulBits = the width in which `digit * factor` / `remainder * BASE` are
+   evaluated: 64 with the `(uint64_t)` cast on the operand, 32 without it).  Strtod/WrapFree.lean proves that on every state the scanner can reach no reduction ever
    changes a value (`scanNumberBaseW_eq`), so all theorems about the unbounded model hold for this one. -/
 import JanetModel.Strtod.Model
 
@@ -21,14 +22,14 @@ def wrap (bits x : Nat) : Nat := if x >>> bits = 0 then x else x % 2 ^ bits
 def muladdDigitsW (factor : Nat) : List Nat → Nat → List Nat
   | [], carry => if carry = 0 then [] else [wrap digitBits carry]
   | d :: rest, carry =>
-    let c := wrap carryBits (carry + wrap carryBits (d * factor))
+    let c := wrap carryBits (carry + wrap mulBits (d * factor))
     wrap digitBits (c % bigBase) :: muladdDigitsW factor rest (c / bigBase)
 
 /-- `bignat_muladd(mant, uint32_t factor, uint32_t term)` -/
 def bignat_muladdW (x : BigNat) (factor0 term0 : Nat) : BigNat :=
   let factor := wrap factorBits factor0
   let term := wrap factorBits term0
-  let c := wrap carryBits (wrap carryBits (x.first * factor) + term)
+  let c := wrap carryBits (wrap mulBits (wrap mulBits (x.first * factor) + term))
   { first := wrap digitBits (c % bigBase), digits := muladdDigitsW factor x.digits (c / bigBase) }
 
 /-- loop of `bignat_div`: `dividend = ((uint64_t)remainder * BASE) + digits[i]; quotient = (uint32_t)(dividend / divisor);
@@ -37,18 +38,18 @@ def divDigitsW (dv : Nat) : List Nat → List Nat × Nat
   | [] => ([], 0)
   | d :: rest =>
     let qr := divDigitsW dv rest
-    let dividend := wrap dividendBits (wrap dividendBits (qr.2 * bigBase) + d)
+    let dividend := wrap dividendBits (wrap divMulBits (wrap divMulBits (qr.2 * bigBase) + d))
     (wrap quotBits (dividend / dv) :: qr.1, wrap quotBits (dividend % dv))
 
 /-- `bignat_div(mant, uint32_t divisor)` (keeps the remainder in `digits[0]`, see Model.lean) -/
 def bignat_divW (x : BigNat) (dv0 : Nat) : BigNat :=
   let dv := wrap factorBits dv0
   match x.digits with
-  | [] => { first := wrap digitBits (wrap dividendBits (wrap dividendBits (0 * bigBase) + x.first) / dv), digits := [] }
+  | [] => { first := wrap digitBits (wrap dividendBits (wrap divMulBits (wrap divMulBits (0 * bigBase) + x.first)) / dv), digits := [] }
   | d0 :: rest =>
     let qr := divDigitsW dv rest
-    let r0 := wrap quotBits (wrap dividendBits (wrap dividendBits (qr.2 * bigBase) + d0) % dv)
-    { first := wrap digitBits (wrap dividendBits (wrap dividendBits (r0 * bigBase) + x.first) / dv),
+    let r0 := wrap quotBits (wrap dividendBits (wrap divMulBits (wrap divMulBits (qr.2 * bigBase) + d0)) % dv)
+    { first := wrap digitBits (wrap dividendBits (wrap divMulBits (wrap divMulBits (r0 * bigBase) + x.first)) / dv),
       digits := dropLastZero (r0 :: qr.1) }
 
 /-- (top53, exponent2) of `bignat_extract` with `uint64_t top53, d1, d2, d3` and `clz((uint32_t) d1)` -/
@@ -151,5 +152,9 @@ def parseNumberW (str : List Nat) (base : Nat) : Option Parsed :=
 /-- `janet_scan_number_base` on the C-typed arithmetic -/
 def scanNumberBaseW (str : List Nat) (base : Nat) : Option Nat :=
   (parseNumberW str base).map (fun p => convertW p.neg p.mant p.base p.ex)
+
+/-- `janet_scan_number(str, len, out)`: `return janet_scan_number_base(str, len, 0, out);` (shape asserted by the
+    translator) — radix prefix `0x` / `Dr` / `DDr` read from the text, default radix 10 -/
+def scanNumber (str : List Nat) : Option Nat := scanNumberBaseW str 0
 
 end JanetModel.Strtod
